@@ -1,6 +1,9 @@
 import MythVerif.Model.WsQueue
 /-! x86-TSO model of the work-stealing queue: owner `push` / `pop` (all paths: lock-free fast
-    path, locked slow path, reset) against any number of thieves running `myth_queue_take`.
+    path, locked slow path, reset) and owner `put` (base-side insert under the lock) against any
+    number of other participants running `myth_queue_take`, `myth_queue_trypass` and
+    `myth_queue_peek` (lock-free loads of `base`, `top` and one slot; the value is a hint to the
+    caller and nothing is removed).
 
     Machine (DESIGN 3.2 / A.3): one FIFO store buffer per participant; a store appends to the
     own buffer; a load forwards from the newest own buffered store to that location, else reads
@@ -16,8 +19,14 @@ import MythVerif.Model.WsQueue
     machine for a lost or duplicated element (the violation search for "missing fence" changes,
     which SC interleavings cannot exhibit).
 
-    Not modelled here (the `_partial` in the theorem name): trypass / put / peek / wsapi
-    functions, the steal cache, re-centring (a push at `top == size` goes to `stuck`). -/
+    Base-side insertions (put, trypass) linearize at the DRAIN of their `base` store (DESIGN A.3):
+    that store is the buffer entry `Sto.baseI v e`, a store of `v` to `base` carrying the ghost tag
+    `e` (the element whose slot store precedes it in the same FIFO buffer); draining it conses `e`
+    to the abstract deque.
+
+    Not modelled here (the `_partial` in the theorem name): the wsapi functions, the steal
+    cache, clear, re-centring (a push at `top == size` goes to `stuck`, a put at `base == 0` goes
+    to `stuckL` – still holding the lock, as the code does while it re-centres). -/
 namespace MythVerif.WsqTso
 open MythVerif.Wsq
 
@@ -36,6 +45,7 @@ inductive Sto where
   | base (v : Int)
   | ptr (i : Int) (x : Option Elem)
   | unlock
+  | baseI (v : Int) (e : Elem)       -- store of `base` by put / trypass (ghost tag: the element inserted)
   deriving DecidableEq, Repr
 
 inductive OPc where
@@ -58,6 +68,13 @@ inductive OPc where
   | po7                              -- q->top = size/2
   | po8                              -- q->base = size/2
   | po9                              -- unlock
+  | stuckL                           -- put at base == 0 (re-centring is outside this model; lock held)
+  | ptl (e : Elem)                   -- lock CAS
+  | pt1 (e : Elem)                   -- if (q->base == 0)
+  | pt6 (e : Elem)                   -- b = q->base
+  | pt7 (e : Elem) (b : Int)         -- q->ptr[b-1] = th
+  | pt8 (e : Elem) (b : Int)         -- q->base = b-1
+  | pt9                              -- unlock
   deriving DecidableEq, Repr
 
 inductive TPc where
@@ -71,6 +88,16 @@ inductive TPc where
   | tk4 (r : Option Elem)            -- unlock
   | tk5 (b : Int)                    -- q->base = b
   | tk6                              -- unlock
+  | tpl (e : Elem)                   -- trylock CAS (failure: return 0)
+  | tp1 (e : Elem)                   -- if (q->base == 0)
+  | tp1b (e : Elem)                  -- b = q->base
+  | tp2 (e : Elem) (b : Int)         -- q->ptr[b-1] = th          (wbarrier: compiler only)
+  | tp3 (e : Elem)                   -- q->base--
+  | tp4 (ok : Bool)                  -- unlock ; return ok
+  | kq0 | kq1 (t : Int)              -- peek: quick check
+  | pk1                              -- b = q->base            (no lock)
+  | pk2 (b : Int)                    -- top = q->top ; b < top ?
+  | pk3 (b : Int)                    -- rbarrier ; ret = q->ptr[b]   (returned as a hint, nothing removed)
   deriving DecidableEq, Repr
 
 structure St where
@@ -106,29 +133,34 @@ def viewTop : List Sto → Int → Int
   | .base _ :: r, m => viewTop r m
   | .ptr _ _ :: r, m => viewTop r m
   | .unlock :: r, m => viewTop r m
+  | .baseI _ _ :: r, m => viewTop r m
 def viewBase : List Sto → Int → Int
   | [], m => m
   | .base v :: r, _ => viewBase r v
   | .top _ :: r, m => viewBase r m
   | .ptr _ _ :: r, m => viewBase r m
   | .unlock :: r, m => viewBase r m
+  | .baseI v _ :: r, _ => viewBase r v
 def viewPtr : List Sto → (Int → Option Elem) → Int → Option Elem
   | [], m, i => m i
   | .ptr j x :: r, m, i => viewPtr r (upd m j x) i
   | .top _ :: r, m, i => viewPtr r m i
   | .base _ :: r, m, i => viewPtr r m i
   | .unlock :: r, m, i => viewPtr r m i
+  | .baseI _ _ :: r, m, i => viewPtr r m i
 
-/-- drain one store into memory (ghost `tr` follows the memory value of `base`) -/
+/-- drain one store into memory (ghost `tr` follows the memory value of `base`; the drain of an
+    inserting `base` store is the linearization point of put / trypass) -/
 def applySto (s : St) : Sto → St
   | .top v => { s with top := v }
   | .base v => { s with base := v, tr := decide (v = s.lb + 1) }
   | .ptr i x => { s with ptr := upd s.ptr i x }
   | .unlock => { s with lock := .free }
+  | .baseI v e => { s with base := v, tr := false, A := e :: s.A, lb := s.lb - 1, ins := e :: s.ins }
 
 inductive Lbl where
-  | oPush (e : Elem) | oPop | o | flushO
-  | tTake (p : Pid) | t (p : Pid) | flushT (p : Pid)
+  | oPush (e : Elem) | oPop | oPut (e : Elem) | o | flushO
+  | tTake (p : Pid) | tPass (p : Pid) (e : Elem) | tPeek (p : Pid) | t (p : Pid) | flushT (p : Pid)
   deriving DecidableEq, Repr
 
 /-- fence: enabled on an empty buffer (or always, when that fence is switched off) -/
@@ -183,6 +215,17 @@ def stepO (s : St) : Option St :=
   | .po7 => some { s with bufO := s.bufO ++ [.top (s.size / 2)], lt := s.size / 2, lb := s.size / 2, opc := .po8 }
   | .po8 => some { s with bufO := s.bufO ++ [.base (s.size / 2)], opc := .po9 }
   | .po9 => (releaseO s).map fun s' => { s' with opc := .idle }
+  | .stuckL => none
+  | .ptl e => if s.bufO.isEmpty then
+                match s.lock with
+                | .free => some { s with lock := .owner, opc := .pt1 e }
+                | _ => some s
+              else none
+  | .pt1 e => if viewBase s.bufO s.base = 0 then some { s with opc := .stuckL } else some { s with opc := .pt6 e }
+  | .pt6 e => some { s with opc := .pt7 e (viewBase s.bufO s.base) }
+  | .pt7 e b => some { s with bufO := s.bufO ++ [.ptr (b - 1) (some e)], opc := .pt8 e b }
+  | .pt8 e b => some { s with bufO := s.bufO ++ [.baseI (b - 1) e], opc := .pt9 }
+  | .pt9 => (releaseO s).map fun s' => { s' with opc := .idle }
 
 def stepT (s : St) (p : Pid) : Option St :=
   match s.tpc p with
@@ -209,6 +252,25 @@ def stepT (s : St) (p : Pid) : Option St :=
                 { s' with tpc := upd s.tpc p .idle, retd := retOpt s.retd r, flT := none }
   | .tk5 b => some { s with bufT := upd s.bufT p (s.bufT p ++ [.base b]), tpc := upd s.tpc p .tk6 }
   | .tk6 => (releaseT s p).map fun s' => { s' with tpc := upd s.tpc p .idle }
+  | .tpl e => if (s.bufT p).isEmpty then
+                match s.lock with
+                | .free => some { s with lock := .thief p, tpc := upd s.tpc p (.tp1 e) }
+                | _ => some { s with tpc := upd s.tpc p .idle }       -- trylock failed: return 0
+              else none
+  | .tp1 e => if viewBase (s.bufT p) s.base = 0 then some { s with tpc := upd s.tpc p (.tp4 false) }
+              else some { s with tpc := upd s.tpc p (.tp1b e) }
+  | .tp1b e => some { s with tpc := upd s.tpc p (.tp2 e (viewBase (s.bufT p) s.base)) }
+  | .tp2 e b => some { s with bufT := upd s.bufT p (s.bufT p ++ [.ptr (b - 1) (some e)]), tpc := upd s.tpc p (.tp3 e) }
+  | .tp3 e => let b := viewBase (s.bufT p) s.base
+              some { s with bufT := upd s.bufT p (s.bufT p ++ [.baseI (b - 1) e]), tpc := upd s.tpc p (.tp4 true) }
+  | .tp4 _ => (releaseT s p).map fun s' => { s' with tpc := upd s.tpc p .idle }
+  | .kq0 => some { s with tpc := upd s.tpc p (.kq1 (viewTop (s.bufT p) s.top)) }
+  | .kq1 t => if t - viewBase (s.bufT p) s.base ≤ 0 then some { s with tpc := upd s.tpc p .idle }
+              else some { s with tpc := upd s.tpc p .pk1 }
+  | .pk1 => some { s with tpc := upd s.tpc p (.pk2 (viewBase (s.bufT p) s.base)) }
+  | .pk2 b => if b < viewTop (s.bufT p) s.top then some { s with tpc := upd s.tpc p (.pk3 b) }
+              else some { s with tpc := upd s.tpc p .idle }
+  | .pk3 _ => some { s with tpc := upd s.tpc p .idle }
 
 def step (s : St) : Lbl → Option St
   | .oPush e => match s.opc with
@@ -217,12 +279,21 @@ def step (s : St) : Lbl → Option St
   | .oPop => match s.opc with
     | .idle => some { s with opc := .pq }
     | _ => none
+  | .oPut e => match s.opc with
+    | .idle => some { s with opc := .ptl e }
+    | _ => none
   | .o => stepO s
   | .flushO => match s.bufO with
     | st :: rest => some (applySto { s with bufO := rest } st)
     | [] => none
   | .tTake p => match s.tpc p with
     | .idle => some { s with tpc := upd s.tpc p .tq0 }
+    | _ => none
+  | .tPass p e => match s.tpc p with
+    | .idle => some { s with tpc := upd s.tpc p (.tpl e) }
+    | _ => none
+  | .tPeek p => match s.tpc p with
+    | .idle => some { s with tpc := upd s.tpc p .kq0 }
     | _ => none
   | .t p => stepT s p
   | .flushT p => match s.bufT p with
